@@ -52,6 +52,12 @@ KNOWN = [
 ]
 
 FIXED = [
+ ("C13", "e1e9cbb", "(no rule) a TACT connection closed mid-response (IncompleteBody / IncompleteMessage) stopped the fallback chain: should_retry treated only timeouts and connect errors as transient (findings/R1/Z-d1)"),
+ ("C13", "dedde05", "(no rule) the Ribbit TCP reader stopped at the first buffer ending in two newlines: the parsed answer depended on the TCP split (findings/R1/Z-d5); C13.R5 now accepts a read loop with no content-dependent exit"),
+ ("C13", "81c37a4", "(no rule) a Ribbit V1 MIME response cut off before its Checksum line parsed as 3 of 7 rows, was returned Ok and cached (findings/R1/Z-d2)"),
+ ("C14", "cfcb90c", "(no rule) RetryPolicy::execute panicked on Duration overflow: huge Retry-After hint + jitter; max_backoff = Duration::MAX with a huge multiplier (findings/R1/Z-d3); C14.R3 now counts try_from_secs_f64 as a conversion that is safe by construction"),
+ ("C10", "1627be0", "(no rule) DiskCache::remove was a no-op for a file written by an earlier instance although get() serves it (findings/R1/W-d4)"),
+ ("C10", "1856214", "(no rule) put_with_ttl(Duration::MAX) panicked in 'now + ttl' (memory and disk); the disk panic poisoned the index lock (findings/R1/W-d1)"),
  ("C05", "49ac777", "(no rule) IndexManager::stats().total_entries counted sorted sections only: 5 un-flushed adds reported 0 (findings/R1/Y-d9)"),
  ("C18", "5c1cc4a", "(no rule) validate_spans sorted by offset only: [(100,50),(100,0)] refused as overlapping, [(100,0),(100,50)] accepted (findings/R1/Y-d4)"),
  ("C04", "3216818", "(no rule) Installation::write_file never saved the index: after reopen the object was unreachable (findings/R1/Y-d2)"),
